@@ -1008,12 +1008,15 @@ def received_bytes_lost(cfg, funcnode, sink, is_source, initial=()):
             if isinstance(st.value, ast.Call) and is_source(st.value):
                 state -= used
                 state |= names
+            elif used and (isinstance(st.value, (ast.Compare, ast.BoolOp)) or (isinstance(st.value, ast.UnaryOp) and isinstance(st.value.op, ast.Not))):
+                state -= names                       # a truth value computed from the data (`expired = ... and eol not in buffer`) carries no bytes
             elif used:
                 state -= used
                 if not to_sink:
                     state |= names
-                elif isinstance(st, ast.Assign):
+                elif isinstance(st, ast.Assign) and any(isinstance(t, (ast.Tuple, ast.List)) for t in st.targets):
                     state |= {n for n in names}      # `line, self._rxbuffer = parts`: line carries the other part
+                # (`self._rxbuffer = buffer = buffer + data`: every target gets the same value, it is in the persistent buffer now)
             elif isinstance(st, ast.Assign):
                 state -= names                       # re-bound to something else
         elif isinstance(st, ast.Return):
